@@ -27,7 +27,7 @@ def shard_cases(lines, target_bytes=110000):
 
 def eval_cases(ctx, outdir, lines, built, tag, classes=None):
     """returns (list of (case index, model outcome, model tree) mismatches, number of shards, ok shards).
-    If `classes` is a dict it is filled with {case index: model's in_F8 bit}."""
+    If `classes` is a dict it is filled with {case index: model's `not layers_safe` bit}."""
     from driver import coq_values, parse_term
     shards = shard_cases(lines)
     files = {}
@@ -38,7 +38,7 @@ def eval_cases(ctx, outdir, lines, built, tag, classes=None):
             f.write("Definition cs : list scase := [\n" + ";\n".join(ln for _, ln in sh) + "].\n")
             f.write("Eval vm_compute in smismatches cs.\n")
             if classes is not None:
-                f.write("Eval vm_compute in f8_bits cs.\n")
+                f.write("Eval vm_compute in unsafe_bits cs.\n")
         files[vf] = sh
     if not built:
         ctx.disagreements.append({"what": "Coq development does not build; correspondence not evaluated"})
